@@ -22,7 +22,10 @@ Definition enc (r : result (option Z * option b64)) : list Z :=
 '''
 
 def b64(x):
-    """Coq term for the float x (finite)"""
+    """Coq term for the float x"""
+    import math
+    if x != x: return '(B754_nan : b64)'
+    if math.isinf(x): return '(B754_infinity %s : b64)' % ('true' if x < 0 else 'false')
     n, d = x.as_integer_ratio()
     return '(of_Z2 (%d) (%d))' % (n, -(d.bit_length() - 1))
 
@@ -47,7 +50,8 @@ def gen_case(rng):
     elif r < 0.9:
         vals = rng.choice([{'nr': '0', 'dr': step, 'cutoff': cut}, {'nr': nr, 'dr': step, 'cutoff': '0'}, {'nr': '-3', 'cutoff': cut}, {'dr': '-0.1', 'cutoff': cut}, {'dr': '0', 'cutoff': cut},
                            {'cutoff': '-1.5', 'nr': nr}, {'nr': '0'}, {'cutoff': '0.0'}, {'dr': '0.0', 'nr': nr}, {'nr': '1', 'dr': step}])
-    elif r < 0.95: vals = rng.choice([{}, {'nr': nr}, {'cutoff': cut}])
+    elif r < 0.93: vals = rng.choice([{}, {'nr': nr}, {'cutoff': cut}])
+    elif r < 0.96: vals = rng.choice([{'cutoff': 'nan'}, {'cutoff': 'inf', 'dr': step}, {'cutoff': cut, 'dr': 'nan'}, {'dr': 'inf', 'nr': nr}, {'cutoff': '-inf', 'nr': nr}, {'cutoff': 'nan', 'dr': 'nan'}])
     else: vals = {'cutoff': repr(rng.uniform(0.5, 20)), 'dr': repr(rng.uniform(0.001, 0.5))}     # not a multiple
     return {'grid': grid, 'vals': vals}
 
@@ -149,7 +153,9 @@ def oracle(case):
     v = case['vals']; fails = []
     got = run_impl(case)
     D = decimal.Decimal
-    def pos(x): return D(x) > 0
+    def pos(x):
+        import math
+        return 0 < float(x) < math.inf
     keys = set(v)
     bad = (keys == {'nr', 'dr', 'cutoff'}) or keys == {'dr'} or any(not pos(x) for x in v.values()) or (keys == {'nr', 'dr'} and int(v['nr']) == 1)   # nr 1 with a step derives cutoff 0
     if bad:
